@@ -607,9 +607,12 @@ type client struct {
 	// lock, drained is set under the write lock once both loops have exited.
 	sendMu  sync.RWMutex
 	drained bool
-	// groupMu keeps single sends (read lock) out of a group of requests that
-	// must reach the node back to back (write lock).
-	groupMu sync.RWMutex
+	// groupSem (a lock of one slot, made on first use) keeps other sends out of a
+	// group of requests that must reach the node back to back. It is a channel and
+	// not a mutex: a sender waits for it no longer than for room in the queue, i.e.
+	// until this connection or the sender itself is told to stop.
+	groupOnce sync.Once
+	groupSem  chan struct{}
 }
 
 func newClient(conn net.Conn, cfg *config, logger log.Logger, options ...clientOption) (*client, error) {
@@ -700,15 +703,30 @@ func (c *client) Start() {
 }
 
 // Send enqueues the requests. More than one (ASKING and the command it is for)
-// are enqueued under groupMu, so that no other sender gets in between them.
+// are enqueued while holding groupSem, so that no other sender gets in between them.
 func (c *client) Send(reqs ...*simpleRequest) {
-	if len(reqs) > 1 {
-		c.groupMu.Lock()
-		defer c.groupMu.Unlock()
-	} else {
-		c.groupMu.RLock()
-		defer c.groupMu.RUnlock()
+	if len(reqs) == 0 {
+		return
 	}
+	c.groupOnce.Do(func() {
+		c.groupSem = make(chan struct{}, 1)
+	})
+	// the holder may be waiting for room in the queue of a node that never
+	// answers: whoever waits behind it gives up like the holder does (send).
+	select {
+	case c.groupSem <- struct{}{}:
+	case <-c.quit:
+		for _, req := range reqs {
+			req.SetResponse(newError(backendExited))
+		}
+		return
+	case <-reqs[0].abort:
+		for _, req := range reqs {
+			req.SetResponse(newError(backendExited))
+		}
+		return
+	}
+	defer func() { <-c.groupSem }()
 	for _, req := range reqs {
 		c.send(req)
 	}
